@@ -16,6 +16,7 @@ from vlib.val import line
 from vlib.compare import diff, Err
 
 ID = 'C02'
+PYOBJECT_METHODS = ['evaluate', 'start', 'end']   # splineobject.py methods re-translated and proved equal to the hand model each run
 RTOL = 1e-9
 ATOL = 1e-11
 RULE = ('objects: pardim 1-3, dim 2-3(4), rational with positive weights, open/periodic bases per direction, non-square shapes; '
